@@ -25,7 +25,8 @@ PACKAGES = {
     # same chemicals in the same order as A, but other aliases and other group definitions: two packages
     # that differ only in their name tables must never share a lookup cache
     'A2': (['Water', 'Ethanol', 'Methanol', 'Glycerol', 'N2', 'CO2', 'Glucose', 'Octane'],
-           {'Humectant': 'Glycerol', 'Fuel': 'Octane'},
+           # 'G' is also (the upper case of) a phase label: a chemical's name wins over the phase reading
+           {'Humectant': 'Glycerol', 'Fuel': 'Octane', 'G': 'Glycerol'},
            {'Alcohols': (['Ethanol', 'Glycerol', 'Methanol'], [0.5, 0.25, 0.25], False),
             'Gases': (['CO2', 'N2'], [0.9, 0.1], True)}),
     'B': (['Octane', 'Methanol', 'Ethanol', 'Water', 'Glucose', 'CO2'],
